@@ -17,6 +17,10 @@ CLAIMED = {
          "Fragments-fit and request reassembly for every fragment size >= 8 and body, response reassembly for every accessory fragmentation, rejection of wrong tid / missing continuation flag, CoAP positional decoding for every outcome vector and id attribution are Lean theorems; the tie is differential over the exhaustive (fs,len) grid, all fragmentations of small bodies, all outcome vectors of small batches and malformed inputs.",
          "Lean kernel; standard axioms; translator (struct formats, status enums, overheads, flags); differential harness; GATT transport replaced by a scripted characteristic; executable Lean AEAD validated per run.",
          "4/C17"),
+ "C07": ("Lean 4 theorems (phase-commutation lemmas, strong induction on consumed input, reverse induction over the list of reads) on a model of HttpResponse.parse + the data_received loop + differential correspondence",
+         "Segmentation independence is a Lean theorem for every byte stream (well-formed or not) and every list of reads: feed(a++b) = feed a ; feed b, lifted to feedAll chunks = feed (flatten chunks), including carried-over bytes after a complete message and where an error is raised; side condition GoodRun (no header block announcing both chunked and a positive Content-Length) is explicit. Correctness of the unsplit parse against a conformant writer is checked by the oracle on generated message sequences (not a theorem: C07_correct is the partial part).",
+         "Lean kernel; standard axioms (Mathlib.Data.List.Induction for reverse induction); differential harness on InsecureHomeKitProtocol.data_received; model domain excludes Python int()'s tolerance of sign/space/underscore and non-ASCII header lines (instrumented, skipped, counted).",
+         "4/C07"),
 }
 
 NOT_YET = {}
